@@ -81,7 +81,7 @@ Section Ext.
   Qed.
   Theorem walk_v_ext : walk_v t v = walk_v t v'.
   Proof.
-    unfold walk_v.
+    unfold walk_v. rewrite w_times_ext.
     rewrite (w_children_ext 0%nat s_data _ (w_block t v')) by apply w_block_ext.
     rewrite (w_children_ext 0%nat s_metadata _ (w_section t v' walk_fuel)) by apply w_section_ext.
     reflexivity.
